@@ -35,6 +35,13 @@ theorem B_lit (l : List Nat) (h : l.all (· < 256) = true) : B l := by
 /-- a literal byte list -/
 macro "blit" : tactic => `(tactic| (intro b hb; simp at hb; omega))
 
+theorem B_showNat' (n : Nat) : ∀ b ∈ SurfModel.Vt.showNat n, b < 256 := by
+  intro b hb; have := SurfProofs.Lemmas.Vt.showNat_digits n b hb; omega
+
+/-- appends of decimal numbers and literal bytes -/
+macro "bsolve" : tactic =>
+  `(tactic| repeat (first | exact B_showNat' _ | exact B_nil | (intro b hb; simp at hb; omega) | apply B_append))
+
 theorem natBytes_bytes (l : List Nat) (h : B l) : SurfModel.Stream.natBytes (bytes l) = l := by
   unfold SurfModel.Stream.natBytes bytes
   rw [List.map_map]
@@ -77,22 +84,13 @@ theorem print_lt (m : Msg) (h : m.Valid) : B (print m) := by
     have := ProtoText.scalar_lt c h.1
     exact B_utf8 c this.1
   | mouse code x y press =>
-    simp only [print, CSI]
-    refine B_append (B_append (B_append (B_append (B_append (B_append (B_append (by blit) (by blit))
-      (B_showNat _)) (by blit)) (B_showNat _)) (by blit)) (B_showNat _)) ?_
-    cases press <;> blit
+    cases press <;> (simp only [print, CSI]; bsolve)
   | cursor r c =>
-    simp only [print, CSI]
-    exact B_append (B_append (B_append (B_append (by blit) (B_showNat _)) (by blit)) (B_showNat _)) (by blit)
+    simp only [print, CSI]; bsolve
   | size ch cw ph pw =>
-    simp only [print, CSI]
-    exact B_append (B_append (B_append (B_append (B_append (B_append (B_append (B_append (B_append (B_append
-      (B_append (B_append (by blit) (by blit)) (B_showNat _)) (by blit)) (B_showNat _)) (by blit))
-      (by blit)) (by blit)) (B_showNat _)) (by blit)) (B_showNat _)) (by blit))
+    simp only [print, CSI]; bsolve
   | decMode mode status =>
-    simp only [print, CSI]
-    exact B_append (B_append (B_append (B_append (B_append (by blit) (by blit)) (B_showNat _)) (by blit))
-      (B_showNat _)) (by blit)
+    simp only [print, CSI]; bsolve
   | deviceAttrs attrs trailing =>
     rw [da_print]
     refine B_append (by blit) (B_append (B_append (B_join 59 (by omega) _ ?_) ?_) (by blit))
@@ -110,7 +108,7 @@ theorem print_lt (m : Msg) (h : m.Valid) : B (print m) := by
     · intro b hb
       have := ProtoColor.spec_bytes spec h.1 b hb
       omega
-    · cases fin <;> blit
+    · cases fin <;> (simp only [OscEnd.bytes, SurfModel.Protocol.ST]; blit)
   | faceReport items =>
     rw [ProtoSgr.faceReport_print]
     refine B_append (by blit) (B_append (B_append ?_ (by blit)) (by blit))
@@ -132,8 +130,7 @@ theorem print_lt (m : Msg) (h : m.Valid) : B (print m) := by
     obtain ⟨n, hn, rfl⟩ := List.mem_map.mp hc
     exact B_hexString upper _ (h.2 n hn).2
   | keyboardLevel flags =>
-    simp only [print, CSI]
-    exact B_append (B_append (B_append (by blit) (by blit)) (B_showNat _)) (by blit)
+    simp only [print, CSI]; bsolve
   | csiU code alts mods =>
     rw [csiU_print]
     refine B_append (by blit) (B_append (B_append ?_ ?_) (by blit))
@@ -150,8 +147,8 @@ theorem print_lt (m : Msg) (h : m.Valid) : B (print m) := by
       have := ProtoTermcap.kHead_bytes id placement b hb
       omega
     · cases error with
-      | none => blit
-      | some msg => exact (h.2.2 msg rfl).1.2.2
+      | none => simp only [ProtoTermcap.kMsg]; blit
+      | some msg => simp only [ProtoTermcap.kMsg]; exact (h.2.2 msg rfl).1.2.2
   | paste t =>
     rw [ProtoText.paste_print]
     exact B_append (by blit) (B_append h.2.2 (by blit))
